@@ -166,6 +166,8 @@ func (i *importer) importAttributes(dbcAtts []*dbc.Attribute, dbcAttDefs []*dbc.
 	}
 
 	attributes := make(map[string]Attribute)
+	// the values of the enum attributes as listed in the file (an index in the file refers to this list)
+	dbcEnumValues := make(map[string][]string)
 	for _, dbcAtt := range dbcAtts {
 		dbcAttDef, ok := dbcAttDefMap[dbcAtt.Name]
 		if !ok {
@@ -205,6 +207,7 @@ func (i *importer) importAttributes(dbcAtts []*dbc.Attribute, dbcAttDefs []*dbc.
 				return i.errorf(dbcAtt, err)
 			}
 			att = enumAtt
+			dbcEnumValues[dbcAtt.Name] = dbcAtt.EnumValues
 		}
 
 		attributes[att.Name()] = att
@@ -228,6 +231,12 @@ func (i *importer) importAttributes(dbcAtts []*dbc.Attribute, dbcAttDefs []*dbc.
 				enumAtt, err := att.ToEnum()
 				if err != nil {
 					panic(err)
+				}
+
+				// the index refers to the list of the file, in which a value can be repeated
+				if fileValues := dbcEnumValues[attName]; dbcAttVal.ValueInt >= 0 && dbcAttVal.ValueInt < len(fileValues) {
+					value = fileValues[dbcAttVal.ValueInt]
+					break
 				}
 
 				strVal, err := enumAtt.GetValueAtIndex(dbcAttVal.ValueInt)
